@@ -74,7 +74,15 @@ type Axiom struct {
 	Line int
 }
 
+type ModSet struct {
+	Name   string
+	Pkg    string
+	Params []string
+	Exprs  []ast.Expr
+}
+
 type ContractSet struct {
+	ModSets map[string]*ModSet
 	UFuns   map[string]*UFun
 	Axioms  []*Axiom
 	Funcs   map[string]*Contract
@@ -84,10 +92,10 @@ type ContractSet struct {
 	Files   []string
 }
 
-var clauseRe = regexp.MustCompile(`^(requires|ensures|modifies|loop|use|func|extern|iface|pred|ghost|devirt|noeffect|assumed|inline|safety|nosafety|params|pure|ufun|axiom|serves)\b`)
+var clauseRe = regexp.MustCompile(`^(requires|ensures|modifies|loop|use|func|extern|iface|pred|ghost|devirt|noeffect|assumed|inline|safety|nosafety|params|pure|ufun|axiom|serves|modset)\b`)
 
 func newContractSet() *ContractSet {
-	return &ContractSet{Funcs: map[string]*Contract{}, Defs: map[string]*SpecDef{}, NoEffectIfaces: map[string]bool{}, UFuns: map[string]*UFun{}}
+	return &ContractSet{Funcs: map[string]*Contract{}, Defs: map[string]*SpecDef{}, NoEffectIfaces: map[string]bool{}, UFuns: map[string]*UFun{}, ModSets: map[string]*ModSet{}}
 }
 
 // loadContractFile parses one file. pkgName is the Go package short name that
@@ -148,6 +156,30 @@ func (cs *ContractSet) loadFileAs(path string, pkgKey string) error {
 				return fail(err)
 			}
 			cs.Defs[pkgName+"."+d.Name] = d
+		case "modset":
+			// modset name(p1, p2) = designator, designator, ...
+			eqi := strings.Index(rest, "=")
+			if eqi < 0 {
+				return fail(fmt.Errorf("modset wants: name(params) = designators"))
+			}
+			head := strings.TrimSpace(rest[:eqi])
+			lp := strings.Index(head, "(")
+			if lp < 0 || !strings.HasSuffix(head, ")") {
+				return fail(fmt.Errorf("bad modset head"))
+			}
+			ms := &ModSet{Name: strings.TrimSpace(head[:lp]), Pkg: pkgName}
+			for _, p := range strings.Split(head[lp+1:len(head)-1], ",") {
+				if p = strings.TrimSpace(p); p != "" {
+					ms.Params = append(ms.Params, p)
+				}
+			}
+			es, err := parseDesignators(strings.TrimSpace(rest[eqi+1:]))
+			if err != nil {
+				return fail(err)
+			}
+			ms.Exprs = es
+			cs.ModSets[pkgName+"."+ms.Name] = ms
+			cur = nil
 		case "ufun":
 			// ufun name(t1, t2) result   -- uninterpreted specification function
 			lp, rp := strings.Index(rest, "("), strings.LastIndex(rest, ")")
